@@ -15,7 +15,7 @@ COMPONENTS = {
 PROPS = {
     "C01": {
         "level": "exploration",
-        "rule": "run = seeded report multiset from a grammar (imp+conv pairs, conv+conv with wrapping value sums, imp+imp with wrapping breakdown sums, keys with 3+ reports, singles, only-impressions, "
+        "rule": "run = seeded report multiset from a grammar (imp+conv pairs, conv+conv with wrapping value sums, imp+imp with wrapping breakdown sums, keys with 3..11 reports, singles, only-impressions, "
                 "only-conversions, one hot bucket driven past saturation of the 8-bit output instantiation; c01_deep: 65..90 pairs on one bucket of one shard = a third aggregation layer) x shards {1,2,3,5} x assignment plan (round-robin, random, all-to-one, one shard empty) x "
                 "{semi-honest, malicious} x {no padding, relaxed padding} x output width {32-bit production, 8-bit} x gateway knobs x schedule policy; non-trivial iff >=1 report and >=1 multi-choice decision; "
                 "distinct by (shape, schedule digest)",
@@ -31,12 +31,17 @@ PROPS = {
         "level": "fault_enumeration",
         "rule": "run = a dense (every shard busy at every stage) malicious-mode hybrid query as in C01, executed honestly (must equal the reference), then replayed with the same seed while one of the three helpers "
                 "rewrites one chunk it sends; the site is drawn from the honest run's channel inventory (about 1000-3000 channels) stratified by step name, over MPC and shard-to-shard traffic of that helper; "
+                "each honest run serves 2 (thorough: 4) replays with different sites; one run in six uses the lane-cancelling attack on the 16-lane masked-PRF-input multiplication (+1/-1 in two lanes of the product message and of the opening copy); "
+                "the same rule is applied to the shuffle stage (c05_tamper) and the MAC/PRF stage (c04_tamper) in isolation; "
                 "non-trivial iff the rewritten chunk was delivered; distinct by (shape, site, schedule digest)",
         "scenarios": [
             {"name": "c02_tamper", "quick": 60, "thorough": 3000, "offset": 1, "chunk": 2, "run_timeout": 900, "max_workers": 12, "crash_ok": True, "det_seeds": 2, "min_runs": 20, "min_s": 400},
+            # the same sound rule applied to the query's stages in isolation, where thousands of sites per minute are affordable
+            {"name": "c05_tamper", "quick": 3000, "thorough": 60000, "offset": 2, "chunk": 20, "run_timeout": 120, "crash_ok": True, "max_workers": 12},
+            {"name": "c04_tamper", "quick": 4000, "thorough": 100000, "offset": 3, "chunk": 50, "run_timeout": 120},
         ],
-        "expected_probes": ["tamper_aborted_query"],
-        "components_real": ["the whole malicious hybrid query as in C01"],
+        "expected_probes": ["tamper_aborted_query", "stage_eval_prf", "stage_input_shuffle", "stage_aggregate", "tamper_rejected_or_aborted", "honest_helper_returned_error"],
+        "components_real": ["the whole malicious hybrid query as in C01; the sharded malicious shuffle and the MAC-protected PRF/multiplication stage on their own"],
     },
     "C03": {
         "level": "fault_enumeration",
@@ -286,7 +291,7 @@ MANIFEST_TEXT = {
         "technique": "deterministic simulation: seeded schedule + input/assignment search over the real sharded query, independent plaintext reference model",
     },
     "C02": {
-        "text": "Fault enumeration over the whole malicious hybrid query: the honest run supplies the channel inventory and the reference; the same seed is replayed with one helper (each of the three) rewriting one chunk it sends on a site stratified by protocol step (padding, shuffle, conversion, PRF, reshard, group-by-sum, reveal, aggregation, finalize - MPC and shard traffic). Violation iff both honest helpers complete the query on every shard and their output shares do not determine the reference histogram. Sites are sampled: about 60 per quick run, thousands in the thorough tier.",
+        "text": "Fault enumeration over the whole malicious hybrid query: the honest run supplies the channel inventory and the reference; the same seed is replayed with one helper (each of the three) rewriting one chunk it sends on a site stratified by protocol step (padding, shuffle, conversion, PRF, reshard, group-by-sum, reveal, aggregation, finalize - MPC and shard traffic). Violation iff both honest helpers complete the query on every shard and their output shares do not determine the reference histogram. Sites are sampled and stratified stage -> gate -> channel: about 120 whole-query sites per quick run (two replays per honest run), thousands in the thorough tier; because a whole-query replay costs seconds, the same sound rule is also applied to the two stages with their own integrity mechanisms (malicious sharded shuffle; MAC-protected multiplication / PRF incl. consistent and lane-cancelling multi-message attacks) in isolation, thousands of sites per quick run.",
         "design_ref": "DESIGN.md section 4, C02",
         "note": "residual acceptance probabilities: 2^-32 shuffle tags, ~2^-50 DZKP, 2^-252 MAC; single-message rewriting (plus the two-site consistent attack in C04) rather than an adaptive adversary; an honest helper aborting (allocation failure on a forged length) counts as 'no output'",
         "technique": "deterministic simulation: honest run + same-seed replay with single-site Byzantine rewriting across the whole query, inventory stratified by step",
